@@ -168,6 +168,15 @@ pub fn join_busy_programs() -> Vec<P> {
         .collect()
 }
 
+/// A task that can wake another task in the very poll that leaves it without a waker of its own.
+pub fn join_forward_programs() -> Vec<P> {
+    let x = || P::JoinForward(s0(), s0(), s0());
+    vec![x(), P::All(vec![x(), P::Req(s0())]), P::then(x(), P::Req(s0())), P::MapEvent(Box::new(x())), P::and(x(), P::Stream(s0()))]
+        .into_iter()
+        .map(P::normalized)
+        .collect()
+}
+
 pub fn spawn_then_self_abort_programs() -> Vec<P> {
     let x = || P::SpawnThenSelfAbort(s0(), s0());
     let progs = vec![
@@ -446,6 +455,7 @@ fn suites_tree(id: &str, tier: Tier) -> Vec<Suite> {
         "C04" => {
             let mut v = vec![Suite { name: "terms", host: HostKind::Direct, programs: plain(3), bounds: bounds(tier.pick(6, 8), 0, 1, 1, 2) }];
             v.push(Suite { name: "terms/join-handle-polled-often", host: HostKind::Direct, programs: join_busy_programs(), bounds: bounds(tier.pick(6, 8), 0, 1, 1, 2) });
+            v.push(Suite { name: "terms/forwarding-join", host: HostKind::Direct, programs: join_forward_programs(), bounds: bounds(tier.pick(6, 8), 0, 1, 1, 2) });
             if !q {
                 v.push(Suite { name: "terms/4-nodes", host: HostKind::Direct, programs: plain(4), bounds: bounds(6, 0, 1, 1, 2) });
                 let basic = dsl::basic_atoms();
@@ -548,6 +558,8 @@ fn suites_tree(id: &str, tier: Tier) -> Vec<Suite> {
                 Suite { name: "done-iff-nothing-left/aborts", host: HostKind::Direct, programs: with_abort(2), bounds: bounds(tier.pick(7, 9), 1, 1, 1, 2) },
                 Suite { name: "done-iff-nothing-left/spawn-then-self-abort", host: HostKind::Direct, programs: spawn_then_self_abort_programs(), bounds: bounds(tier.pick(7, 9), 0, 2, 1, 2) },
                 Suite { name: "done-iff-nothing-left/join-handle-polled-often", host: HostKind::Direct, programs: join_busy_programs(), bounds: bounds(tier.pick(7, 9), 0, 2, 1, 2) },
+                Suite { name: "done-iff-nothing-left/forwarding-join", host: HostKind::Direct, programs: join_forward_programs(), bounds: bounds(tier.pick(7, 9), 0, 2, 1, 2) },
+                Suite { name: "done-iff-nothing-left/forwarding-join", host: HostKind::StreamPoll, programs: join_forward_programs(), bounds: bounds(tier.pick(7, 9), 0, 2, 1, 2) },
                 Suite { name: "done-iff-nothing-left/join-handle-polled-often", host: HostKind::StreamPoll, programs: join_busy_programs(), bounds: bounds(tier.pick(7, 9), 0, 2, 1, 2) },
                 Suite { name: "done-iff-nothing-left/spawn-then-self-abort", host: HostKind::StreamPoll, programs: spawn_then_self_abort_programs(), bounds: bounds(tier.pick(7, 9), 0, 2, 1, 2) },
                 Suite { name: "done-iff-nothing-left/hand-driven-nested-command", host: HostKind::Direct, programs: join_hosted_programs(tier == Tier::Thorough), bounds: bounds(tier.pick(6, 8), 1, 1, 1, 2) },
